@@ -140,6 +140,8 @@ fn generate_graph(
     undirected: bool,
 ) -> anyhow::Result<Vec<(String, String)>> {
     let mut rng = rand::thread_rng();
+    #[cfg(rsbdd_verif)]
+    let mut rng = verif_rng::verif_rng(&mut rng);
 
     let vertices = (0..num_vertices)
         .map(|vi| format!("v{}", vi))
@@ -229,4 +231,59 @@ fn augment_colors(
     }
 
     Ok(new_edges)
+}
+
+#[cfg(rsbdd_verif)]
+mod verif_rng {
+    //! Verification hook, compiled only with `--cfg rsbdd_verif`: when the
+    //! environment variable `RSBDD_VERIF_RNG_SEED` holds a `u64`, the
+    //! generator draws from a `StdRng` seeded with it; otherwise every call is
+    //! delegated to the original entropy-seeded generator.
+    use rand::rngs::StdRng;
+    use rand::{Error, RngCore, SeedableRng};
+
+    pub enum VerifRng<'a, R: RngCore> {
+        Seeded(Box<StdRng>),
+        Delegate(&'a mut R),
+    }
+
+    pub fn verif_rng<R: RngCore>(original: &mut R) -> VerifRng<'_, R> {
+        match std::env::var("RSBDD_VERIF_RNG_SEED")
+            .ok()
+            .and_then(|s| s.parse::<u64>().ok())
+        {
+            Some(seed) => VerifRng::Seeded(Box::new(StdRng::seed_from_u64(seed))),
+            None => VerifRng::Delegate(original),
+        }
+    }
+
+    impl<R: RngCore> RngCore for VerifRng<'_, R> {
+        fn next_u32(&mut self) -> u32 {
+            match self {
+                Self::Seeded(r) => r.next_u32(),
+                Self::Delegate(r) => r.next_u32(),
+            }
+        }
+
+        fn next_u64(&mut self) -> u64 {
+            match self {
+                Self::Seeded(r) => r.next_u64(),
+                Self::Delegate(r) => r.next_u64(),
+            }
+        }
+
+        fn fill_bytes(&mut self, dest: &mut [u8]) {
+            match self {
+                Self::Seeded(r) => r.fill_bytes(dest),
+                Self::Delegate(r) => r.fill_bytes(dest),
+            }
+        }
+
+        fn try_fill_bytes(&mut self, dest: &mut [u8]) -> core::result::Result<(), Error> {
+            match self {
+                Self::Seeded(r) => r.try_fill_bytes(dest),
+                Self::Delegate(r) => r.try_fill_bytes(dest),
+            }
+        }
+    }
 }
